@@ -12,4 +12,5 @@ CONSTANTS
   MaxRounds = 6
 INVARIANTS TypeOKC11 RegistrationExact SignedOverContent ReuseOnlyIfUnchanged FailureIsolated PreparationExact PreparationIsolated ControlledDropped ForwardedUnchanged ForwardedAll KeepsLastGood
 CONSTRAINT RoundBound
+CONSTRAINT CoarseFanOut
 CHECK_DEADLOCK FALSE
